@@ -519,9 +519,9 @@ func (x *Exec) rangeNext(s *State, f *Frame, in *ssa.Next, itv Value) (Value, bo
 			V: &TupleVal{E: []Value{str, tb.Or(taint, tb.And(ok, nonASCII))}}})
 		return &TupleVal{E: []Value{ok, tb.Int64(int64(pos)), r}}, true
 	}
-	// map
+	// map: the iterator value holds the entries not yet visited (so that iterators of sibling
+	// states merge entry-wise whatever they skipped)
 	mo := ov.V.(*MapObj)
-	pos := rk.Pos
 	// components the program never extracts have an invalid type: keep them uniform
 	fix := func(tv *TupleVal) *TupleVal {
 		for i := 1; i <= 2; i++ {
@@ -531,22 +531,26 @@ func (x *Exec) rangeNext(s *State, f *Frame, in *ssa.Next, itv Value) (Value, bo
 		}
 		return tv
 	}
-	for pos < len(mo.Entries) && mo.Entries[pos].Present.IsFalse() {
-		pos++
+	var rest []MapEntry
+	for _, e := range mo.Entries {
+		if !e.Present.IsFalse() {
+			rest = append(rest, e)
+		}
 	}
-	if pos >= len(mo.Entries) {
+	if len(rest) == 0 {
+		x.set(f, in.Iter, &OpaqueVal{Kind: "range", X: rangeKey{"map", 0}, V: &MapObj{KT: mo.KT, VT: mo.VT}})
 		return fix(&TupleVal{E: []Value{tb.False, x.zero(tt.At(1).Type()), x.zero(tt.At(2).Type())}}), true
 	}
-	e := mo.Entries[pos]
+	e := rest[0]
 	if e.Present.IsTrue() {
-		x.set(f, in.Iter, &OpaqueVal{Kind: "range", X: rangeKey{"map", pos + 1}, V: mo})
+		x.set(f, in.Iter, &OpaqueVal{Kind: "range", X: rangeKey{"map", 0}, V: &MapObj{Entries: rest[1:], KT: mo.KT, VT: mo.VT}})
 		return fix(&TupleVal{E: []Value{tb.True, e.Key, e.Val}}), true
 	}
-	// entries with symbolic presence: yield the first present entry from pos on and consume it
+	// entries with symbolic presence: yield the first present entry and consume it
 	okAny := tb.False
 	var k, v Value
-	for i := len(mo.Entries) - 1; i >= pos; i-- {
-		ei := mo.Entries[i]
+	for i := len(rest) - 1; i >= 0; i-- {
+		ei := rest[i]
 		okAny = tb.Or(okAny, ei.Present)
 		if k == nil {
 			k, v = ei.Key, ei.Val
@@ -555,15 +559,15 @@ func (x *Exec) rangeNext(s *State, f *Frame, in *ssa.Next, itv Value) (Value, bo
 			v = x.ite(ei.Present, ei.Val, v)
 		}
 	}
-	ne := make([]MapEntry, len(mo.Entries))
-	copy(ne, mo.Entries)
+	ne := make([]MapEntry, len(rest))
+	copy(ne, rest)
 	seen := tb.False
-	for i := pos; i < len(ne); i++ {
+	for i := range ne {
 		first := tb.And(ne[i].Present, tb.Not(seen))
 		seen = tb.Or(seen, ne[i].Present)
 		ne[i].Present = tb.And(ne[i].Present, tb.Not(first))
 	}
-	x.set(f, in.Iter, &OpaqueVal{Kind: "range", X: rangeKey{"map", pos}, V: &MapObj{Entries: ne, KT: mo.KT, VT: mo.VT}})
+	x.set(f, in.Iter, &OpaqueVal{Kind: "range", X: rangeKey{"map", 0}, V: &MapObj{Entries: ne, KT: mo.KT, VT: mo.VT}})
 	return fix(&TupleVal{E: []Value{okAny, k, v}}), true
 }
 
